@@ -81,10 +81,10 @@ CHECKS = {
    text="Residue.distance_to runs on fully symbolic coordinates and boxes (one path). Orthorhombic boxes: result^2 equals sum (d_i - L_i k_i)^2 for the code's integers k and is <= the same sum for every integer vector n (free integer symbols: all images), hence <= the direct distance. General non-singular boxes: symmetry, invariance under symbolic integer lattice shifts of either argument, inverse-flag equivalence. Every clause is discharged by scripted z3 / Groebner / explicit-certificate steps; the bounded float twin is separate.",
    note="A1 float64 as reals; A2; A3 contract of numpy.linalg.inv (two-sided inverse, functional) and numpy.round (nearest integer); ties excluded as in the statement; trusted: z3, sympy, vf/symrun.py",
    tech=TECH + ": symbolic execution of the real method with contract stubs for numpy.linalg.inv / numpy.round, scripted SMT + ideal-membership proofs", ref="DESIGN.md section 6 C19"),
- "C20": dict(cat="other", engine="smallscope",
-   text="classify_files: exact classification over an enumerated name set. sort_molecules: postcondition required for every iteration order of both candidate sets (classify_files stubbed by adversarially ordered set objects = hash-seed independence stated in the callee's contract), every explicit subset, generated and shipped directories. main/auto_map: protocol contract with Manager replaced by a recorder over 870 argv vectors; 8 end-to-end byte comparisons with the library workflow under the same seed. Bounded only.",
-   note="bounded scope as stated; interpreter hash seeds replaced by adversarial iteration orders (+ a small real PYTHONHASHSEED sweep)",
-   tech=BND, ref="DESIGN.md section 6 C20"),
+ "C20": dict(cat="other", engine="pyvc+smallscope",
+   text="Deductive core (pyvc, any number of explicit and discovered species): main() calls auto_map exactly once with the input coordinates, the given scale and the requested output path, and with the list explicit triples (unchanged, in order) + [start topology, end coordinates, end topology] of every discovered species that is complete and not excluded, in dictionary order (argparse/print as no-ops, sort_molecules by contract; ghost counting function, quantified array invariant); classify_files exact for any list of files (informational). Bounded: sort_molecules postcondition for every iteration order of both candidate sets (classify_files stubbed by adversarially ordered set objects = hash-seed independence stated in the callee's contract), every explicit subset, generated and shipped directories; main/auto_map protocol contract with Manager replaced by a recorder over 870 argv vectors; 8 end-to-end byte comparisons with the library workflow under the same seed.",
+   note="deductive part: which files the discovery assigns (sort_molecules: an OSError protocol over real topologies) and the equality of outputs are bounded only; interpreter hash seeds replaced by adversarial iteration orders (+ a small real PYTHONHASHSEED sweep)",
+   tech=TECH + " of main()'s species-list assembly (pyvc) + " + BND, ref="DESIGN.md section 6 C20"),
 }
 NOT_YET = "check not built yet in this round (work in progress; see DESIGN.md section 6 for the plan)"
 NA = {}
